@@ -175,6 +175,38 @@ def c11(tier, seed):
     return steps
 
 
+def spline_steps(tier, seed, which):
+    k, x, y = q(tier, (4, 4, 3), (5, 5, 3))
+    steps = [
+        {"type": "mc", "module": "MC_Spline", "constants": {"K": k, "X": x, "Y": y, "Off": 0}, "workers": 4, "tag": "origin"},
+        {"type": "mc", "module": "MC_Spline", "constants": {"K": 4, "X": 3, "Y": 2, "Off": 100}, "workers": 2, "tag": "offset"},
+        CALIB,
+        {"type": "i2s", "name": "drive spline", "spec": "Trace_Build", "cmd": ["drive", "spline", "{seed}", q(tier, 1500, 6000), "{trace}"],
+         "min_tally": [1000, 300, 0, 0]},
+    ]
+    if tier == "thorough":
+        steps += [{"type": "i2s", "name": "drive spline shard %d" % j, "spec": "Trace_Build",
+                   "cmd": ["drive", "spline", str(seed * 1000 + j), 6000, "{trace}"], "min_tally": [1000, 300, 0, 0]} for j in range(1, 8)]
+    return steps
+
+
+def c04(tier, seed):
+    return spline_steps(tier, seed, "C04")
+
+
+def c05(tier, seed):
+    return spline_steps(tier, seed, "C05")
+
+
+def c06(tier, seed):
+    return [
+        {"type": "mc", "module": "MC_Linear", "constants": {"L": q(tier, 3, 4), "X": 4, "Y": 2}, "workers": 4},
+        CALIB,
+        {"type": "i2s", "name": "drive linear", "spec": "Trace_Build", "cmd": ["drive", "linear", "{seed}", q(tier, 2000, 20000), "{trace}"],
+         "min_tally": [0, 0, 1500, 600]},
+    ]
+
+
 ARITH_ASSUME = [
     "libm ln within 1 ulp (glibc claims < 1 ulp)",
     "inputs whose partial terms or powers of x leave [2^-1000, 2^1000] are out of scope and skipped (counted by the tallies)",
@@ -187,6 +219,12 @@ ORDER_ASSUME = [
 ]
 
 PLANS = {
+    "C04": {"claim": "Kruger's construction is transcribed formula by formula into Spline.tla; over exact rationals TLC checks on every knot set of a grid (monotone, oscillating, plateaued, collinear; also offset 100 from the origin) that each cubic interpolates both knots with exactly the prescribed slopes (harmonic mean / zero / end rule) and that it is monotone (exact minimum of the derivative quadratic from end values and vertex) and stays inside the knot ordinates (Bernstein hull), flat at extrema, linear on collinear data -- with zero tolerance. On real executions TLC recomputes the exact Kruger slopes of the float knots and judges the returned coefficients: interpolation, end slopes, C1, monotonicity (exact quadratic minimum, no sampling of x), no overshoot (Bernstein control values), within KAPPA=64 * 2^-53 * the magnitudes of the construction's intermediate terms.", "steps": c04, "parallel": 8,
+            "rule": "tallies = [spline events in scope, of which with an interior extremum or plateau]", "assumptions": ARITH_ASSUME + ["KAPPA = 64 (measured worst case 2.2)"]},
+    "C05": {"claim": "Kruger's construction is transcribed formula by formula into Spline.tla; over exact rationals TLC checks on every knot set of a grid (monotone, oscillating, plateaued, collinear; also offset 100 from the origin) that each cubic interpolates both knots with exactly the prescribed slopes (harmonic mean / zero / end rule) and that it is monotone (exact minimum of the derivative quadratic from end values and vertex) and stays inside the knot ordinates (Bernstein hull), flat at extrema, linear on collinear data -- with zero tolerance. On real executions TLC recomputes the exact Kruger slopes of the float knots and judges the returned coefficients: interpolation, end slopes, C1, monotonicity (exact quadratic minimum, no sampling of x), no overshoot (Bernstein control values), within KAPPA=64 * 2^-53 * the magnitudes of the construction's intermediate terms.", "steps": c05, "parallel": 8,
+            "rule": "tallies = [spline events in scope, of which with an interior extremum or plateau]", "assumptions": ARITH_ASSUME + ["KAPPA = 64 (measured worst case 2.2)"]},
+    "C06": {"claim": "linear() is a TLA+ fold machine (running-maximum abscissa forcing, epsilon-threshold slope rule); over exact rationals TLC checks on every knot sequence of a grid (repeated and out-of-order abscissae, gaps below the threshold) one segment per pair, ends = running maximum, through the forced left knot, through the right knot or constant, and for regular knots the interpolant/ordinate/extrapolation clause at every half-grid point; real executions with gaps of 0, eps/2, pred(eps), eps, succ(eps), 2eps at several bases, descending runs and large offsets are judged by TLC over exact rationals (width = the rounded difference the code tests).",
+            "steps": c06, "parallel": 6, "rule": "tallies = [linear events in scope, of which with a sub-epsilon or out-of-order gap]", "assumptions": ARITH_ASSUME},
     "C11": {"claim": "The knot-threading iterator is a TLA+ machine (one action per piece); over exact rationals TLC checks on every bounded well-formed list (duplicates in), piece set and knot: same shape, through the knot, continuity, piecewise antiderivative, F(t)=k0.y+integral (the integral defined independently as the sum of per-piece definite integrals over Select's partition) and the indefinite variant; all those cases are replayed bit-exactly on Piecewise<Poly2/5/7> through integral, indefinite, integral_iter and integral_iter_ref; random polynomial (degrees 0..7) and log-polynomial (degrees 0..8, incl. the quartic form) functions are judged by TLC with exact rationals and 230-bit ln/exp-tail on all those clauses, tolerances growing along the chain.",
             "steps": c11, "parallel": 8, "rule": "s2i non-trivial = more than one piece; i2s tallies = [events judged, knot in first piece's domain, >= 2 pieces, log events]", "assumptions": ARITH_ASSUME + ["KAPPA = 256 per chain step, times the accumulated term magnitudes"]},
     "C09": {"claim": "That the recurrences q_n=p_n, q_i=p_i-(i+1)q_{i+1} solve q+q'=p (so v q(ln v) is an antiderivative of p(ln v)) and that the quartic special form solves G-G'=p(-x) is model-checked on the coefficient grid for every degree 0..8; on real executions TLC evaluates, with 230-bit ln and exponential tail and exact rational arithmetic, (i) every number of the returned form against the exact recurrence, (ii) F(knot.x)=knot.y both through the library's evaluate and through the form's meaning, (iii) F(b)-F(a) and the same for indefinite() against the exact antiderivative (fundamental theorem, no quadrature), at points far from 1 (1e-300 .. 1e18).",
